@@ -120,7 +120,22 @@ impl C08 {
             ..GenCfg::default()
         };
         let facts = crate::gen::gen_facts(rng, &cfg);
-        let facts = drive::permute(&facts, OrderMode::Shuffled, rng);
+        let mut facts = drive::permute(&facts, OrderMode::Shuffled, rng);
+        // boundary contents at the END of sections: the last term / gene / disease record is as short as
+        // a record can be (empty name, no terms) in a third of the files
+        if rng.chance(1, 3) {
+            if let Some(i) = (0..facts.terms.len()).rev().find(|i| facts.terms[*i].id != 1 && facts.terms[*i].id != 118) {
+                facts.terms[i].name = String::new();
+                let t = facts.terms.remove(i);
+                facts.terms.push(t);
+            }
+            for k in 0..3 {
+                let id = 4_000_000 + k as u32;
+                facts.recs[k].retain(|r| r.id != id);
+                facts.recs[k].push(crate::facts::RecFact { id, name: String::new(), terms: vec![] });
+            }
+            out.bucket("layout/minimal_last_records");
+        }
         let view = facts.binary_view(v);
         let emit_empty = rng.chance(2, 3);
         let (bytes, layout): (Vec<u8>, Layout) = encode(&view, &EncodeOpts { version: v, emit_empty_parent_records: emit_empty });
@@ -289,6 +304,7 @@ impl Monitor for C08 {
             "layout/v2",
             "layout/v3",
             "layout/parent_records_only_for_terms_with_parents",
+            "layout/minimal_last_records",
             "truncation_offsets_tried",
             "suffixes_tried",
             "version_bytes_tried",
